@@ -34,14 +34,37 @@
     `d27_record`, kernel-checked).
   * "rendering never fails": `Yae.Debug.render` is a total function (no `Option`/`Except`, no
     fuel that can run out: the only fuel, in `recAux`, is shown sufficient by `rec_first_free`);
-    there is nothing to state.  "keeps the source as its first line": `render_firstline`.
-    "shows every recorded value": NOT proved here (a statement about `renderValues`/`scan`
-    placing every single-line value at its column); it is exercised by the differential stream.
+    there is nothing to state.
+  * "keeps the source as its first line": `render_firstline` (string level) and
+    `render_first_line` — the report split at its line breaks (`linesOf`: split at every `'\n'`;
+    nothing is lost, `render_lines_join`) has the source as its first line (for a `src` without
+    `'\n'`, which `newRender` asserts).
+  * "shows every recorded value": `render_shows` — when the columns of the record are pairwise
+    distinct (which `recordOf_distinct_cols` guarantees for the record of every run:
+    `recordOf_shown`), every entry with a column `≥ 1` whose text has no line break stands, whole
+    and on ONE line of the report (so no line break is introduced inside it; moreover
+    `render_no_break`: no line below the source contains `'\n'` or `'\r'` at all), below the source
+    line and the `|` line, starting at its (1-based, rune) column.  `render_shows_lines` is the
+    same for every text: its pieces (as split by `splitLines` at `\r\n`, `\r`, `\n`) stand on
+    consecutive lines, each starting at the column.  Without the distinctness hypothesis:
+    `render_shows_last` — of the entries of one column the LAST recorded one is shown; and the
+    others are exactly the ones `renderValues` skips: `render_hidden` — an entry with column `< 1`
+    (`Pos.unknown`) or with a later entry of the same column has no influence on the report at all
+    (`hidden_duplicate`, `hidden_unknown`: kernel-checked instances).  So the property's
+    "shows every recorded value" holds for every entry of a real record with a known column; no
+    counterexample exists (the odd `startCols[j] = startCol + 1` after a `|`, and `startCols[1] = 0`
+    for the `|` line, are harmless: a later entry has a smaller column, and writes its text on a
+    line only when it ends strictly left of that line's `start`, which is never right of any text
+    already there; proofs: `Yae.Proofs.DebugRender`, `DebugRenderReport`, `DebugRenderHidden`).
+    NOT proved: that nothing ELSE is on the value lines (e.g. that the cells between the values
+    are blanks or `|`), and that the `|` above a value is at the value's column on every line
+    between the source and the value.
 -/
 import Yae.Proofs.DebugEval
+import Yae.Proofs.DebugRenderHidden
 import Yae.Props.C06
 namespace Yae.C19
-open Yae Yae.DebugEval Yae.Debug
+open Yae Yae.DebugEval Yae.Debug Yae.DebugRender
 
 /-! ## same value or failure -/
 
@@ -267,6 +290,122 @@ theorem render_firstline (src : String) (r : Record) :
     ∃ rest, render src r = src ++ rest ∧ (rest = "" ∨ ∃ rest', rest = "\n" ++ rest') :=
   DebugEval.render_firstline src r
 
+/-! ### the lines of the report
+
+`linesOf s` (`Yae.DebugRender.linesOf`) is `s` split at every `'\n'`. -/
+
+example : linesOf "ab\n\ncd" = [['a', 'b'], [], ['c', 'd']] := by decide
+
+/-- splitting the report into its lines loses nothing: joined by `"\n"` they are the report -/
+theorem render_lines_join (src : String) (r : Record) (hsrc : ∀ x ∈ src.toList, x ≠ '\n') :
+    "\n".intercalate ((linesOf (render src r)).map String.ofList) = render src r :=
+  render_eq_join src r hsrc
+
+/-- the first line of the report is the source, character by character -/
+theorem render_first_line (src : String) (r : Record) (hsrc : ∀ x ∈ src.toList, x ≠ '\n') :
+    (linesOf (render src r))[0]? = some src.toList := by
+  rw [linesOf_render src r hsrc]; rfl
+
+/-- below the source line no line of the report contains a line break character (`'\n'`, `'\r'`):
+`render` breaks a value only where the value's own text has a line break -/
+theorem render_no_break (src : String) (r : Record) (hsrc : ∀ x ∈ src.toList, x ≠ '\n') :
+    ∀ line ∈ (linesOf (render src r)).tail, ∀ x ∈ line, x ≠ '\n' ∧ x ≠ '\r' :=
+  render_tail_noBreak src r hsrc
+
+/-! ### every recorded value is shown -/
+
+/-- **shows every recorded value** (columns pairwise distinct, text without line break): the
+report has a line — below the source line and the `|` line — that carries the whole text of the
+entry, starting at the entry's column (1-based, counted in characters).  In particular the text
+is on ONE line: no line break is introduced inside it. -/
+theorem render_shows (src : String) (r : Record) (hsrc : ∀ x ∈ src.toList, x ≠ '\n')
+    (hd : (r.map (·.col)).Nodup) (e : Entry) (he : e ∈ r) (hc : 1 ≤ e.col)
+    (hone : ∀ x ∈ e.text.toList, x ≠ '\n' ∧ x ≠ '\r') :
+    ∃ i line, 2 ≤ i ∧ (linesOf (render src r))[i]? = some line ∧
+      (line.drop (e.col.toNat - 1)).take e.text.length = e.text.toList :=
+  single_of_lines hone (DebugRender.render_shows_lines src r hsrc hd e he hc)
+
+/-- … for every text: its pieces — the text split at `\r\n`, `\r`, `\n` (`splitLines`) — stand on
+consecutive lines of the report, each starting at the entry's column -/
+theorem render_shows_lines (src : String) (r : Record) (hsrc : ∀ x ∈ src.toList, x ≠ '\n')
+    (hd : (r.map (·.col)).Nodup) (e : Entry) (he : e ∈ r) (hc : 1 ≤ e.col) :
+    ∃ i, 2 ≤ i ∧ ∀ k (hk : k < (splitLines e.text.toList []).length), ∃ line,
+      (linesOf (render src r))[i + k]? = some line ∧
+      (line.drop (e.col.toNat - 1)).take ((splitLines e.text.toList [])[k]).length =
+        (splitLines e.text.toList [])[k] :=
+  DebugRender.render_shows_lines src r hsrc hd e he hc
+
+/-- … for every record: of the entries of one column `≥ 1`, the one recorded LAST is shown -/
+theorem render_shows_last (src : String) (r1 : Record) (e : Entry) (r2 : Record)
+    (hsrc : ∀ x ∈ src.toList, x ≠ '\n') (hc : 1 ≤ e.col) (hne : ∀ y ∈ r2, y.col ≠ e.col) :
+    ∃ i, 2 ≤ i ∧ ∀ k (hk : k < (splitLines e.text.toList []).length), ∃ line,
+      (linesOf (render src (r1 ++ e :: r2)))[i + k]? = some line ∧
+      (line.drop (e.col.toNat - 1)).take ((splitLines e.text.toList [])[k]).length =
+        (splitLines e.text.toList [])[k] :=
+  DebugRender.render_shows_last src r1 e r2 hsrc hc hne
+
+/-- … and the other entries — unknown column (`< 1`), or a later entry of the record has the same
+column — are the ones `renderValues` skips: they have no influence on the report -/
+theorem render_hidden (src : String) (r1 : Record) (e : Entry) (r2 : Record)
+    (h : e.col < 1 ∨ ∃ y ∈ r2, y.col = e.col) :
+    render src (r1 ++ e :: r2) = render src (r1 ++ r2) :=
+  DebugRender.render_hidden src r1 e r2 h
+
+/-- the record of a run (`recordOf`, columns pairwise distinct by `recordOf_distinct_cols`):
+every entry with a known column and a text without line break is shown at its column -/
+theorem recordOf_shown (src : String) (evs : List Event) (hsrc : ∀ x ∈ src.toList, x ≠ '\n')
+    (e : Entry) (he : e ∈ recordOf evs) (hc : 1 ≤ e.col)
+    (hone : ∀ x ∈ e.text.toList, x ≠ '\n' ∧ x ≠ '\r') :
+    ∃ i line, 2 ≤ i ∧ (linesOf (render src (recordOf evs)))[i]? = some line ∧
+      (line.drop (e.col.toNat - 1)).take e.text.length = e.text.toList :=
+  render_shows src (recordOf evs) hsrc (recordOf_distinct_cols evs).1 e he hc hone
+
+/-- … and with a text of several lines -/
+theorem recordOf_shown_lines (src : String) (evs : List Event) (hsrc : ∀ x ∈ src.toList, x ≠ '\n')
+    (e : Entry) (he : e ∈ recordOf evs) (hc : 1 ≤ e.col) :
+    ∃ i, 2 ≤ i ∧ ∀ k (hk : k < (splitLines e.text.toList []).length), ∃ line,
+      (linesOf (render src (recordOf evs)))[i + k]? = some line ∧
+      (line.drop (e.col.toNat - 1)).take ((splitLines e.text.toList [])[k]).length =
+        (splitLines e.text.toList [])[k] :=
+  render_shows_lines src (recordOf evs) hsrc (recordOf_distinct_cols evs).1 e he hc
+
+/-! non-vacuity: `a + b` with `a = 1` (column 1) and `b = 2` (column 5) -/
+
+example : render "a + b" [⟨"1", 1⟩, ⟨"2", 5⟩] = "a + b\n|   |\n1   2" := by decide
+
+example : linesOf (render "a + b" [⟨"1", 1⟩, ⟨"2", 5⟩]) =
+    ["a + b".toList, "|   |".toList, "1   2".toList] := by decide
+
+/-- the hypotheses of `render_shows` hold for both entries of that record … -/
+example : (([⟨"1", 1⟩, ⟨"2", 5⟩] : Record).map (·.col)).Nodup ∧
+    (∀ x ∈ "a + b".toList, x ≠ '\n') ∧
+    (∀ e ∈ ([⟨"1", 1⟩, ⟨"2", 5⟩] : Record), 1 ≤ e.col ∧ ∀ x ∈ e.text.toList, x ≠ '\n' ∧ x ≠ '\r') := by
+  decide
+
+/-- … and its conclusion, on line 2, for the entry at column 5 -/
+example : (linesOf (render "a + b" [⟨"1", 1⟩, ⟨"2", 5⟩]))[2]? = some "1   2".toList ∧
+    (("1   2".toList).drop ((5 : Int).toNat - 1)).take "2".length = "2".toList := by decide
+
+/-- a text with a line break always gets fresh lines, one per piece, each at the column; a value
+may end directly in front of a `|` (`startCols[j] = startCol + 1`) … -/
+example : render "ab.c + d" [⟨"100", 1⟩, ⟨"x\ny", 4⟩, ⟨"7", 8⟩] =
+    "ab.c + d\n|  |   |\n100|   7\n   x\n   y" := by decide
+
+/-- … but not directly in front of a value: it goes to the next line with room -/
+example : render "ab.c + d" [⟨"100", 1⟩, ⟨"55", 4⟩, ⟨"7", 8⟩] =
+    "ab.c + d\n|  |   |\n|  55  7\n100" := by decide
+
+example : splitLines "x\r\ny\rz\n".toList [] = [['x'], ['y'], ['z'], []] := by decide
+
+/-- two entries under one column (which `Rec` never produces): only the later one is shown, the
+report is that of the record without the earlier one (`render_hidden`) -/
+theorem hidden_duplicate :
+    render "abc" [⟨"1", 3⟩, ⟨"2", 3⟩] = "abc\n  |\n  2" ∧
+    render "abc" [⟨"2", 3⟩] = "abc\n  |\n  2" := by decide
+
+/-- an entry with an unknown column is not shown -/
+theorem hidden_unknown : render "abc" [⟨"1", 0⟩] = "abc\n" ∧ render "abc" [] = "abc\n" := by decide
+
 end Yae.C19
 
 #print axioms Yae.C19.same_result
@@ -290,3 +429,14 @@ end Yae.C19
 #print axioms Yae.C19.d27_eval
 #print axioms Yae.C19.d27_record
 #print axioms Yae.C19.render_firstline
+#print axioms Yae.C19.render_lines_join
+#print axioms Yae.C19.render_first_line
+#print axioms Yae.C19.render_no_break
+#print axioms Yae.C19.render_shows
+#print axioms Yae.C19.render_shows_lines
+#print axioms Yae.C19.render_shows_last
+#print axioms Yae.C19.render_hidden
+#print axioms Yae.C19.recordOf_shown
+#print axioms Yae.C19.recordOf_shown_lines
+#print axioms Yae.C19.hidden_duplicate
+#print axioms Yae.C19.hidden_unknown
